@@ -2,7 +2,7 @@
    final xor -- written bit by bit, independently of the table-driven code. *)
 From Coq Require Import NArith List.
 Import ListNotations.
-Open Scope N_scope.
+Local Open Scope N_scope.
 
 Definition arc_shift1 (c : N) : N := N.lxor (N.shiftr c 1) (if N.odd c then 0xA001 else 0).
 Definition arc_shift8 (c : N) : N :=
